@@ -6,11 +6,12 @@ From Coq Require Import ZArith ZifyBool ZifyN ZifyNat Lia.
 
 Ltac Zify.zify_post_hook ::= Z.div_mod_to_equations.
 
-(** [clean o]: neither a panic nor an [InsufficientBytes] error *)
+(** [clean o]: neither a panic, nor an [InsufficientBytes] error, nor the model's [OutOfFuel] *)
 Definition clean {A} (o : R A) : Prop :=
   match o with
   | Panic _ => False
   | Err (InsufficientBytes _) => False
+  | Err OutOfFuel => False
   | _ => True
   end.
 
@@ -64,10 +65,10 @@ Proof.
   apply split_to_inv in H. destruct H as [-> Hl]. rewrite !len_cons, len_app. lia.
 Qed.
 
-Lemma utf8_check_clean : forall e x, e <> InsufficientBytes 0 -> (forall k, e <> InsufficientBytes k) -> clean (utf8_check e x).
+Lemma utf8_check_clean : forall e x, e <> OutOfFuel -> (forall k, e <> InsufficientBytes k) -> clean (utf8_check e x).
 Proof.
-  intros e x _ He. unfold utf8_check. destruct (utf8_valid (fst x)); [exact I |].
-  destruct e; try exact I. exfalso. exact (He k eq_refl).
+  intros e x Ho He. unfold utf8_check. destruct (utf8_valid (fst x)); [exact I |].
+  destruct e; try exact I; exfalso; [exact (He k eq_refl) | exact (Ho eq_refl)].
 Qed.
 
 Lemma utf8_check_ok : forall e x y, utf8_check e x = Ok y -> y = x.
@@ -91,6 +92,13 @@ Proof.
   intros [] s; cbn [read_str]; [apply read_mqtt_string_clean |].
   apply clean_bind; [apply read_mqtt_bytes_clean |].
   intros x _. apply utf8_check_clean; intros; discriminate.
+Qed.
+
+Lemma read_str_ok : forall fl s t r, read_str fl s = Ok (t, r) -> len s = 2 + len t + len r.
+Proof.
+  intros [] s t r H; cbn [read_str] in H; [apply read_mqtt_string_ok; exact H |].
+  destruct (read_mqtt_bytes s) as [x | e | p] eqn:E; cbn [bind] in H; try discriminate.
+  apply utf8_check_ok in H. subst x. apply read_mqtt_bytes_ok. exact E.
 Qed.
 
 Lemma read_topic_clean : forall fl s, clean (read_topic fl s).
@@ -188,20 +196,23 @@ Section Bodies.
     apply clean_bind; [apply read_u16_clean |]. intros [pkid s1] _. exact I.
   Qed.
 
-  Lemma filters_read_clean : forall fuel s, clean (filters_read fl fuel s).
+  (** fuel = number of bytes is enough: every iteration consumes at least 3 *)
+  Lemma filters_read_clean : forall fuel s, (length s <= fuel)%nat -> clean (filters_read fl fuel s).
   Proof.
-    induction fuel as [| fuel IH]; intros s; cbn [filters_read]; destruct (is_empty s); try exact I.
-    apply clean_bind; [apply read_str_clean |]. intros [path s1] _.
-    apply clean_bind; [apply read_u8_clean |]. intros [options s2] _.
+    induction fuel as [| fuel IH]; intros s Hf; cbn [filters_read]; destruct (is_empty s) eqn:Es; try exact I.
+    { destruct s; [discriminate | cbn [length] in Hf; lia]. }
+    apply clean_bind; [apply read_str_clean |]. intros [path s1] Hp. apply read_str_ok in Hp.
+    apply clean_bind; [apply read_u8_clean |]. intros [options s2] Ho. apply read_u8_ok in Ho. subst s1.
     apply clean_bind; [apply qos_of_clean |]. intros q _.
-    apply clean_bind; [apply IH |]. intros r _. exact I.
+    apply clean_bind; [apply IH |]. 2:{ intros r _. exact I. }
+    rewrite len_cons, !len_spec in Hp. lia.
   Qed.
 
   Lemma subscribe_read_clean : clean (subscribe_read fl h frame).
   Proof.
     unfold subscribe_read. apply clean_bind; [apply adv_clean |]. intros s _.
     apply clean_bind; [apply read_u16_clean |]. intros [pkid s1] _.
-    apply clean_bind; [apply filters_read_clean |]. intros fs _. destruct (nil_b fs); exact I.
+    apply clean_bind; [apply filters_read_clean; lia |]. intros fs _. destruct (nil_b fs); exact I.
   Qed.
 
   Lemma rc_reason_clean : forall c, clean (rc_reason c).
@@ -227,15 +238,16 @@ Section Bodies.
 
   (** the loop invariant of Unsubscribe::read: payload_bytes = bytes.len(), so the subtraction
       `payload_bytes -= topic_filter.len() + 2` cannot overflow *)
-  Lemma topics_read_clean : forall fuel pb s, pb = len s -> clean (topics_read fuel pb s).
+  Lemma topics_read_clean : forall fuel pb s, pb = len s -> (length s < fuel)%nat -> clean (topics_read fuel pb s).
   Proof.
-    induction fuel as [| fuel IH]; intros pb s Hpb; cbn [topics_read]; destruct (pb =? 0); try exact I.
+    induction fuel as [| fuel IH]; intros pb s Hpb Hf; [lia |].
+    cbn [topics_read]; destruct (pb =? 0); try exact I.
     apply clean_bind; [apply read_mqtt_string_clean |]. intros [t s1] Ht.
     apply read_mqtt_string_ok in Ht.
     apply clean_bind.
     { unfold sub. replace (len t + 2 <=? pb) with true by lia. exact I. }
     intros pb' Hpb'. unfold sub in Hpb'. destruct (len t + 2 <=? pb); [| discriminate]. inversion Hpb'; subst pb'.
-    apply clean_bind; [apply IH; lia |]. intros r _. exact I.
+    apply clean_bind; [apply IH; [lia | rewrite !len_spec in Ht; lia] |]. intros r _. exact I.
   Qed.
 
   Lemma unsubscribe_read_clean : clean (unsubscribe_read h frame).
@@ -247,7 +259,7 @@ Section Bodies.
     apply clean_bind.
     { unfold sub. replace (2 <=? remaining_len h) with true by lia. exact I. }
     intros pb Hpb. unfold sub in Hpb. destruct (2 <=? remaining_len h); [| discriminate]. inversion Hpb; subst pb.
-    apply clean_bind; [apply topics_read_clean; lia |]. intros ts _. exact I.
+    apply clean_bind; [apply topics_read_clean; [lia | cbn [length]; lia] |]. intros ts _. exact I.
   Qed.
 
   Lemma unsuback_read_clean : clean (unsuback_read h frame).
@@ -383,4 +395,35 @@ Proof.
     + cbn. intros [H | []]. discriminate.
     + cbn. intros [].
     + exfalso. exact (read_total _ _ _ _ E).
+Qed.
+
+(** the model's own fuel never runs out: [OutOfFuel] is not an observable error *)
+Theorem read_no_out_of_fuel : forall fl bs max rest, read fl bs max <> Malformed OutOfFuel rest.
+Proof.
+  intros fl bs max rest H. unfold read in H.
+  apply read_framed_malformed_cause in H; [| apply body_no_panic | apply body_no_insufficient].
+  destruct H as [H | [H | (h & frame & Hl & Hb)]]; try discriminate.
+  pose proof (read_body_clean fl h frame Hl) as C. rewrite Hb in C. exact C.
+Qed.
+
+Theorem stream_no_out_of_fuel : forall fl max chunks,
+  ~ In (EvError OutOfFuel) (fst (run_stream4 fl max chunks)).
+Proof.
+  intros fl max chunks. rewrite chunking_independent4. unfold run_stream4, run_stream. cbn [feed_all].
+  unfold feed. cbn [dead dinit buf app].
+  assert (Hgen : forall n b, (length b < n)%nat ->
+            ~ In (EvError OutOfFuel) (fst (drain (fun b0 => read fl b0 max) n b))).
+  { induction n as [| n IH]; intros b Hn; [lia |]. cbn [drain].
+    destruct (read fl b max) as [p rest | e rest | k | t'] eqn:E.
+    - destruct (read_frame_packet _ _ _ _ _ E) as (h & frame & _ & Hb & _ & _ & Hl).
+      assert (Hs : (length rest < n)%nat).
+      { subst b. rewrite app_length in Hn. rewrite len_spec in Hl. lia. }
+      specialize (IH rest Hs). destruct (drain (fun b0 => read fl b0 max) n rest) as [evs st].
+      cbn [fst] in *. intros [Hc | Hc]; [discriminate | exact (IH Hc)].
+    - cbn. intros [Hc | []]. inversion Hc; subst. exact (read_no_out_of_fuel _ _ _ _ E).
+    - cbn. intros [].
+    - cbn. intros [Hc | []]. discriminate. }
+  specialize (Hgen (S (length (concat chunks))) (concat chunks) ltac:(lia)).
+  destruct (drain (fun b0 => read fl b0 max) (S (length (concat chunks))) (concat chunks)) as [evs st].
+  cbn [fst] in *. rewrite app_nil_r. exact Hgen.
 Qed.
